@@ -681,6 +681,68 @@ def size_sweep_case(run, sizes, runs, seed):
 
 
 
+def wide_case(run, seed, thorough):
+    """Thin slice 'many features x large (power-of-two) storage': the row behind EVERY feature position must be uniform and, under
+    the product strategy, independent between positions (entropy shared between positions runs out for late features)."""
+    from ixai.storage import BatchStorage
+    from ixai.imputer import MarginalImputer
+    random.seed(seed)
+    np.random.seed(seed)
+    seen = []
+
+    def model(xx):
+        seen.append(xx)
+        return {"output": 0.0}
+    cfgs = [(8, 64), (12, 128), (9, 1024), (16, 4096), (20, 100), (13, 1000), (24, 2)] if not thorough else \
+        [(8, 64), (12, 128), (9, 1024), (16, 4096), (20, 100), (13, 1000), (24, 2), (32, 65536), (40, 3), (28, 512), (64, 16)]
+    runs = 240 if not thorough else 2000
+    ct = CellTests(sum(2 * (4 * d + 16 * (d - 1)) for d, m in cfgs), eps=EPS / (2 * len(OUTCOME_CFGS) + 64))
+    fails = []
+    for d, m in cfgs:
+        names = [f"w{j}" for j in range(d)]
+        st = BatchStorage(store_targets=False)
+        for t in range(m):
+            st.update({n: t * 100 + j for j, n in enumerate(names)})
+        x = {n: -1 - j for j, n in enumerate(names)}
+        nb = min(4, m)
+        for strat in ("joint", "product"):
+            imp = MarginalImputer(model, strat, st)
+            del seen[:]
+            imp.impute(list(names), x, runs)
+            if len(seen) != runs:
+                run.ok(kind="wide")
+                run.violation("imputer:evaluation-count", f"{d} features, storage length {m} ({strat}): {len(seen)} evaluations for n_samples={runs}",
+                              {"d": d, "m": m, "strategy": strat})
+                continue
+            rows = [[int(xi[n]) // 100 for n in names] for xi in seen]
+            run.ok(runs, kind="wide")
+            if strat == "joint" and any(len(set(r)) != 1 for r in rows):
+                fails.append(("joint-mixed-rows", f"{d} features, storage length {m} (joint): one evaluation mixes several stored rows"))
+            for j in range(d):
+                cnt = collections.Counter(r[j] * nb // m for r in rows)
+                for b in range(nb):
+                    size = len([t for t in range(m) if t * nb // m == b])
+                    res = ct.test(cnt.get(b, 0), runs, size / m, f"{d} features, storage length {m} ({strat}): row bucket {b} of feature position {j}")
+                    if res:
+                        fails.append(("row-distribution", res))
+                if strat == "product" and j >= 1 and m % nb == 0:
+                    pc = collections.Counter((r[j - 1] * nb // m, r[j] * nb // m) for r in rows)
+                    for a in range(nb):
+                        for b in range(nb):
+                            res = ct.test(pc.get((a, b), 0), runs, 1 / (nb * nb), f"{d} features, storage length {m} (product): row buckets ({a},{b}) of "
+                                                                                   f"feature positions {j - 1},{j} (independent draws)")
+                            if res:
+                                fails.append(("row-pair-distribution", res))
+            run.nontriv(("wide", d, m, strat))
+    run.count("cell-tests", ct.done)
+    seen_m = set()
+    for mech, msg in fails:
+        key = msg.split(": row")[0]
+        if key not in seen_m and len(seen_m) < 3:
+            seen_m.add(key)
+            run.violation("imputer:" + mech, msg, {"wide": True, "runs": runs, "seed": seed})
+
+
 # ------------------------------------------------------------------------------------------------
 EXACT_CFGS = [
     ("sage", "joint", 3, 3, 1), ("sage", "product", 3, 2, 1), ("sage", "joint", 2, 4, 2), ("sage", "product", 2, 3, 2),
@@ -783,7 +845,7 @@ def exact_case(run, idx, cfgspec, seed):
             r = e.explain_many_original(rows, ys, verbose=False)
             return tuple(r[f] for f in names)
     try:
-        lawd, runs_x, fsites = exact_law(scen, max_runs=300000)
+        lawd, runs_x, fsites = exact_law(scen, max_runs=60000)
     except Budget:
         run.count("exact-law-budget-exceeded")
         return
@@ -831,7 +893,7 @@ def exact_rows_case(run, sizes):
                 imp.impute(["a", "b"] if strat == "joint" else ["a"], {"a": -1.0, "b": -2.0}, 1)
                 return int(seen[0]["a"])
             try:
-                lawd, runs_x, _ = exact_law(scen, max_runs=50000)
+                lawd, runs_x, _ = exact_law(scen, max_runs=40 * m + 200)
             except Budget:
                 run.count("exact-law-budget-exceeded")
                 continue
@@ -878,7 +940,7 @@ def main(run):
                            grnd.choice([2, 3, 4, 6, 30, 300]), grnd.choice([1, 2, 3])))
     jobs = [("outcome", i, c) for i, c in enumerate(OUTCOME_CFGS + extra_out)] + [("draw", i, c) for i, c in enumerate(DRAW_CFGS + extra_draw)] \
         + [("order", i, c) for i, c in enumerate(ORDER_CFGS)] + [("moving", i, c) for i, c in enumerate(MOVING_CFGS)] \
-        + [("sizes", 0, list(range(1, 36))), ("sizes", 1, list(range(36, 71)) + [127, 128, 129, 255, 256, 257, 1025])] \
+        + [("wide", 0, None), ("sizes", 0, list(range(1, 36))), ("sizes", 1, list(range(36, 71)) + [127, 128, 129, 255, 256, 257, 1025])] \
         + [("exact", i, c) for i, c in enumerate(EXACT_CFGS)] + [("exact-rows", 0, list(range(1, 41))), ("exact-rows", 1, list(range(41, 81)) + [127, 128, 129, 255, 256, 257])]
     # every shard must touch every anchor: shards run a slice of jobs, coverage is merged by the parent
     for j, (what, i, c) in enumerate(jobs):
@@ -895,6 +957,8 @@ def main(run):
             exact_case(run, i, c, seed)
         elif what == "exact-rows":
             exact_rows_case(run, c)
+        elif what == "wide":
+            wide_case(run, seed, run.tier == "thorough")
         elif what == "sizes":
             size_sweep_case(run, c, 3000 if run.tier == "quick" else 40000, seed)
         else:
